@@ -646,7 +646,8 @@ Definition handle (n : node) (c : nat) (rq : request) : node * resp :=
       (send n c ("cluster-state " +++ txt +++ nlS), RValue "cluster-state" txt (-1))
   | RqMetricsState =>
       if negb auth then (n, not_auth) else
-      (send n c "metrics-state *", RValue "oplog-state" "*" (-1))
+      (* the figures are timing dependent ("*"); the text ends with two line feeds *)
+      (send n c ("metrics-state *" +++ nlS +++ nlS), RValue "oplog-state" "*" (-1))
   | RqKeys pattern =>
       match guard_db n c with
       | GStop n' r => (n', r)
